@@ -2,6 +2,7 @@ mod emit;
 mod env;
 mod fmts;
 mod model;
+mod ops;
 mod report;
 mod universe;
 mod props;
